@@ -30,8 +30,8 @@ MANIFEST = {
     "note": "Corpus plans x all coordinates; automaton rules taken from the documentation.",
     "design_ref": "3 (C04)",
 }
-PLANS_Q = ["mixed", "scan", "custom", "two_runs", "nested", "norun"]
-PLANS_T = PLANS_Q + ["grid", "count", "clearcp", "fly", "rel_scan", "custom_mon", "neverclose"]
+PLANS_Q = ["mixed", "scan", "custom", "two_runs", "nested", "norun", "keys_sparse"]
+PLANS_T = PLANS_Q + ["keys_sparse2", "grid", "count", "clearcp", "fly", "rel_scan", "custom_mon", "neverclose"]
 SHARD_TIMEOUT = {"quick": 900, "thorough": 3600}
 worker_init = sweepcheck.worker_init
 
